@@ -268,7 +268,10 @@ func genUE(r *kernel.Rand, o GenOpts, ord int) scn.UEParams {
 		p.CUCOpt = r.Intn(4)
 		p.AccOpt = r.Intn(1 << 15)
 		p.TransOpt = r.Intn(16)
-		p.SetupOpt = r.Intn(2) << 1 // UE-AMBR after the list only
+		p.SetupOpt = r.Intn(2) << 1 // UE-AMBR after the list
+		if o.TopLevelOpts && r.Chance(1, 4) {
+			p.SetupOpt |= 1 // RANPagingPriority before the list
+		}
 	}
 	p.UEIP = fmt.Sprintf("%d.%d.%d.%d", r.Range(1, 223), r.Intn(256), r.Intn(256), r.Intn(256))
 	te := r.Bytes(4)
